@@ -66,6 +66,9 @@ class State:
     def new_dict(self, items=()):
         return DictV(self.alloc(list(items)))
 
+    def new_symlist(self, seq_term, wrap, unwrap):
+        return SymListV(self.alloc([seq_term]), wrap, unwrap)
+
     def new_obj(self, cls, fields=None):
         return ObjV(cls, self.alloc(dict(fields or {})))
 
